@@ -185,7 +185,7 @@ Fixpoint ArrayLike (v : aval) (s : list nat) {struct v} : Prop :=
   match v with
   | AList xs | ATuple xs =>
       match s with
-      | n :: s' => n = length xs /\
+      | n :: s' => n = length xs /\ (xs = [] -> s' = []) /\     (* np.asarray([]).shape = (0,) *)
                    (fix all (l : list aval) : Prop :=
                       match l with [] => True | x :: r => ArrayLike x s' /\ all r end) xs
       | [] => False
